@@ -64,8 +64,11 @@ impl Suppressions {
       return;
     }
     let line = node.start_pos().line();
+    // the comment is a trailing one if something ends before it on its line. The previous
+    // sibling can start on an earlier line, e.g. a `while` without braces whose body it follows
     let suppress_next_line = if let Some(prev) = node.prev() {
-      prev.start_pos().line() != line
+      let end = prev.end_pos();
+      !(end.line() == line && end.ts_point().column() > 0)
     } else {
       true
     };
